@@ -7,7 +7,7 @@ Property theorems only (helper lemmas: `Proofs/BrokerLife*.lean`).  Model:
 (`Proofs/BrokerLifeInv.lean`): true initially, kept by every event, hence true
 of every state `(run {} evs).1`.
 -/
-import Mqtt.Proofs.BrokerLifeSession
+import Mqtt.Proofs.BrokerLifeTrie
 
 namespace Mqtt.Properties.C10
 open Mqtt.Iface.Broker Mqtt.Model.Broker Mqtt.Proofs.BrokerLife
@@ -217,5 +217,68 @@ example :
     b'.storeGet Ex.idB = some 2 ∧
     (b'.getSess 2).map (·.topics) = some [(Ex.tW, 1), (Ex.tAB, 0)] ∧
     (b.getSess 2).map (·.topics) = some [(Ex.tW, 1), (Ex.tAB, 0)] := by decide
+
+/-! ### 6. the resumed subscriptions, seen in the subscription trie (with the C06 theorems) -/
+
+/-- In every reachable state the subscription trie is well-formed (unique map
+keys, `Proofs.Topics.WF`) — the hypothesis of the C06 trie theorems. -/
+theorem C10_trie_wf_reachable (evs : List Ev) : Mqtt.Proofs.Topics.WF (run {} evs).1.topics.sroot :=
+  trieWF_reachable evs
+
+/-- After an accepted CONNECT answered with SessionPresent=1, every entry
+`(filter, qos)` of the kept session's topic list that the tries accept (QoS ≤ 2,
+`nextTopicLevel` parses the filter), and whose level path is not shared with
+another entry of the list, is held in the trie for the new connection `c` at its
+granted QoS (`abs`: the entries of the trie).  Consequently (C06_smatch_char)
+the subscriber lookup for every name whose levels the filter path matches
+returns `c` with QoS min(publish QoS, granted QoS) — without any SUBSCRIBE on
+the new connection. -/
+theorem C10_resume_trie (b : B) (hwf : Mqtt.Proofs.Topics.WF b.topics.sroot) (c : Nat) (req : Connect)
+    (authOk : Bool) (h : Out.send c (.connack true 0) ∈ (first b c (.connect req) authOk).2) :
+    ∃ s, b.storeGet req.clientId = some s.ref ∧ b.getSess s.ref = some s ∧
+      Mqtt.Proofs.Topics.WF (first b c (.connect req) authOk).1.topics.sroot ∧
+      (s.topics.Pairwise (fun p p' => (Mqtt.Model.Topics.levels p.1).1 ≠ (Mqtt.Model.Topics.levels p'.1).1) →
+        ∀ p ∈ s.topics, Mqtt.Model.Topics.validQos p.2 = true → (Mqtt.Model.Topics.levels p.1).2 = true →
+          ((Mqtt.Model.Topics.levels p.1).1, c, grant Generated.maxQosAllowed p.2) ∈
+            Mqtt.Proofs.Topics.abs (first b c (.connect req) authOk).1.topics.sroot ∧
+          ∀ (ns : List Mqtt.Model.Topics.Level) (q : Nat),
+            Mqtt.Proofs.Topics.walk (Mqtt.Model.Topics.levels p.1).1 ns = true →
+            ∃ r, (first b c (.connect req) authOk).1.topics.sroot.smatchL ns true q = some r ∧
+              (c, min q (grant Generated.maxQosAllowed p.2)) ∈ r) := by
+  obtain ⟨s, h1, h2, h3, _⟩ := C10_resume_resubscribes b c req authOk h
+  have hwf' : Mqtt.Proofs.Topics.WF (first b c (.connect req) authOk).1.topics.sroot := by
+    rw [h3]; exact resubscribe_WF c s.topics b.topics hwf
+  refine ⟨s, h1, h2, hwf', ?_⟩
+  intro hpw p hp hq hl
+  have hm : ((Mqtt.Model.Topics.levels p.1).1, c, grant Generated.maxQosAllowed p.2) ∈
+      Mqtt.Proofs.Topics.abs (first b c (.connect req) authOk).1.topics.sroot := by
+    rw [h3]; exact resubscribe_holds c s.topics b.topics hwf hpw p hp ⟨hq, hl⟩
+  refine ⟨hm, ?_⟩
+  intro ns q hwalk
+  obtain ⟨r, hr, hperm⟩ := Mqtt.Proofs.Topics.smatch_char _ ns q hwf'
+  refine ⟨r, hr, hperm.mem_iff.mpr ?_⟩
+  rw [List.mem_filterMap]
+  exact ⟨_, hm, by simp [hwalk]⟩
+
+/-- the granted QoS is the requested one for QoS ≤ 2 (`Generated.maxQosAllowed` = 2) -/
+theorem C10_grant (q : Nat) (h : Mqtt.Model.Topics.validQos q = true) : grant Generated.maxQosAllowed q = q := by
+  unfold grant Generated.maxQosAllowed
+  simp only [Mqtt.Model.Topics.validQos, Bool.or_eq_true, beq_iff_eq] at h
+  split
+  · omega
+  · rfl
+
+/-- non-vacuity: the kept session of "A" holds ("w", 2) and ("a/b", 1): both
+subscribable, different paths; after the resume both entries are in the trie
+for connection 3. -/
+example :
+    let b := (run Ex.base2 [.close 1]).1
+    let b' := (first b 3 (.connect (Ex.conn Ex.idA false)) true).1
+    (b.getSess 1).map (·.topics) = some [(Ex.tW, 2), (Ex.tAB, 1)] ∧
+    Mqtt.Model.Topics.levels Ex.tW = ([[119]], true) ∧ Mqtt.Model.Topics.levels Ex.tAB = ([[97], [98]], true) ∧
+    Mqtt.Proofs.Topics.abs b.topics.sroot = [([[97], [98]], 2, 0), ([[119]], 2, 1), ([[119]], 1000, 0)] ∧
+    Mqtt.Proofs.Topics.abs b'.topics.sroot =
+      [([[97], [98]], 2, 0), ([[97], [98]], 3, 1), ([[119]], 2, 1), ([[119]], 1000, 0), ([[119]], 3, 2)] := by
+  decide
 
 end Mqtt.Properties.C10
